@@ -251,6 +251,26 @@ def run(ctx):
             if rng.random() < 0.5:
                 p, r = p.T.copy(), r.T.copy()
         cases.append((c, p, r))
+    # many-to-one matching that really merges: a good main prediction plus a second one that mostly lies OUTSIDE the reference, so the
+    # merged instance scores clearly lower than the pair that established the match; the matching metric is among the instance metrics
+    # and sometimes decides (every list entry is the score of the instance as evaluated, i.e. of the merged prediction)
+    for _ in range(ctx.scale(25, 250)):
+        n = rng.randint(8, 12)
+        ref = np.zeros((2, n + 14), np.uint8); pred = np.zeros_like(ref)
+        ref[:, 1:1 + n] = 1
+        pred[:, 1:n] = rng.choice([1, 4])                               # IoU (n-1)/n
+        spill = rng.randint(5, 9)
+        pred[:, n:n + spill] = rng.choice([2, 5])                        # one column inside the reference, the rest outside
+        if rng.random() < 0.5:
+            ref[:, n + spill + 2:n + spill + 5] = 2; pred[:, n + spill + 2:n + spill + 5] = 7
+        mm = rng.choice(["IOU", "DSC"])
+        c = {"input": "unmatched", "matcher": "naive", "m2o": True, "mmetric": mm, "mthr": rng.choice([0.0, 0.05]),
+             "imetrics": rng.choice([["IOU", "DSC"], ["DSC", "IOU", "RVD"], ["IOU"]]) if mm == "IOU" else rng.choice([["DSC", "IOU"], ["DSC"]]), "gmetrics": []}
+        if rng.random() < 0.6:
+            c["dmetric"], c["dthr"] = mm, rng.choice([0.7, 0.8, 0.85])
+        if rng.random() < 0.3:
+            pred, ref = pred.T.copy(), ref.T.copy()
+        cases.append((c, pred, ref))
     for _ in range(ctx.scale(200, 2500)):
         it = rng.choice(["matched", "unmatched", "unmatched", "semantic"])
         p, r = impl.rand_pair(rng, max_side=6, max_inst=4)
